@@ -144,7 +144,7 @@ func run(c *core.Ctx) {
 						ip = in{op: opPop}
 					}
 				} else {
-					k := c.S.Plan(12)
+					k := c.S.Plan(13)
 					switch {
 					case k < 4:
 						ip = in{opPush, val}
@@ -157,10 +157,13 @@ func run(c *core.Ctx) {
 					case k == 10:
 						ip = in{op: opPeekTail}
 					default:
-						if c.S.PlanP(500) {
+						switch c.S.Plan(3) {
+						case 0:
 							ip = in{op: opIsEmpty}
-						} else {
+						case 1:
 							ip = in{op: opReset}
+						default:
+							ip = in{op: opPeek}
 						}
 					}
 				}
